@@ -9,9 +9,9 @@ import (
 // validated; SigRuleTrace must flag exactly the corrupted lines, with the expected monitor.
 func (r *runner) SelfTest() error {
 	u := r.us[0]
-	genuine := Case{F: "gnosis", N: 2, T: 2, Signers: []int{0, 1}, Sigs: []Sig{{"ok", 0, ""}, {"ok", 1, ""}}, Mut: ""}
-	forged := Case{F: "gnosis", N: 2, T: 2, Signers: []int{0, 1}, Sigs: []Sig{{"ok", 0, ""}, {"ok", 2, ""}}, Mut: ""}
-	empty := Case{F: "service", N: 2, T: 2, Signers: []int{}, Sigs: []Sig{}, Mut: ""}
+	genuine := Case{F: "gnosis", N: 2, T: 2, Signers: []int{0, 1}, Sigs: []Sig{{"ok", 0, ""}, {"ok", 1, ""}}, Mut: "", Ann: []string{"S"}}
+	forged := Case{F: "gnosis", N: 2, T: 2, Signers: []int{0, 1}, Sigs: []Sig{{"ok", 0, ""}, {"ok", 2, ""}}, Mut: "", Ann: []string{"S"}}
+	empty := Case{F: "service", N: 2, T: 2, Signers: []int{}, Sigs: []Sig{}, Mut: "", Ann: []string{"S"}}
 	tg := Targets{Fn: true}
 	a, b, e := RunCase(u, &genuine, tg, nil), RunCase(u, &forged, tg, nil), RunCase(u, &empty, tg, nil)
 	if a.Obs[0].R != "accept" || b.Obs[0].R != "reject" || e.Obs[0].R != "accept" {
